@@ -258,3 +258,12 @@ Proof.
   exists [(9, mkCfg 0 0 0 87)], (mkQer 1 0 9 0 0 42056 42056 0 0 1). split; [now left|]. split; [repeat split; reflexivity|].
   intros (c1 & c2 & E & H). vm_compute in E. injection E as <- <-. destruct H as (_ & H & _). vm_compute in H. now apply H.
 Qed.
+
+(* an open gate with a signalled rate is metered: unmetered means exactly "both rates zero" *)
+Lemma c09_metered_when_rate : forall conf q, lvl_ok q -> exists c1 c2, add_qer conf q = [c1; c2] /\
+  (q_uls q = 0 -> (q_ulmbr q <> 0 \/ q_ulgbr q <> 0) -> k_gate c1 = gate_meter) /\
+  (q_dls q = 0 -> (q_dlmbr q <> 0 \/ q_dlgbr q <> 0) -> k_gate c2 = gate_meter).
+Proof.
+  intros conf q Hl. exists (ul_cmd conf q), (dl_cmd conf q). split; [now apply add_qer_two|].
+  unfold ul_cmd, dl_cmd. cbn [k_gate]. split; intros Ho Hnz; rewrite Ho; now apply dir_rates_open_gate.
+Qed.
